@@ -281,7 +281,7 @@ def _static_cg(
         pos = pos - alpha * d
         pos = where(
             (curv < 0.0) & (not _raise_nonposdef) & (i <= 1),
-            previous_energy / (-curv) * (-j),
+            pos - previous_gamma / (-curv) * d,
             pos,
         )
         r = cond(
